@@ -144,6 +144,7 @@ class Engine:
         # abstract reachability graph: one node per (program node, state that executed it); path-sensitive
         # exactly as far as the exploration is (states are only merged when they differ in drop flags)
         self.anc_eq_log = []   # comparisons `ancestor == X` with ancestor from Path::ancestors (monitors.py)
+        self.drain_log = []    # (node, start, end) of every VecDeque/Vec drain
         self.index_log = []    # (node, frame, range kind, start, end) of every range-indexing of a slice
         self.deadline = None         # wall-clock limit of the current exploration (set by World)
         self.max_join_states = 1500  # more states than this at one join point = state explosion, give up
@@ -802,6 +803,8 @@ class Engine:
         a = prog.adts.get(ap)
         if a is not None and a["kind"] == "enum":
             return [prog.variant_discr(ap, i) for i in range(len(a["variants"]))]
+        if ap in ("std::cmp::Ordering", "core::cmp::Ordering"):
+            return [0, 1, 255]
         if ap in STD_ENUMS:
             return list(range(STD_ENUMS[ap]))
         return None
